@@ -27,6 +27,18 @@ NEEDS = {
  'C13-v2': 'an unconnectable orphan VBK block in flight shields higher in-flight blocks in tryConnectPayloads (break on first failure)',
  'C18-v1': 'compact value with exponent byte exactly 0x21 and mantissa 0x000100..0x00ffff (overflow thresholds transposed)',
  'C18-v2': 'base58 text with an embedded NUL (ValidAsCString guard removed)',
+ 'C01b-v1': 'one BTC block referenced by two applied VTBs recorded at VBK heights in descending order; a third VTB between them connects to it (validateBTCContext looks at refs.front() only)',
+ 'C01b-v2': 'a VTB lands in a mid-fork block of the non-active VBK fork and makes that fork win: the VBK best chain stays truncated at the containing block (doUpdateAffectedTips of the containing block only)',
+ 'C03b-v1': 'the two chains publish the same keystone exactly table.size()-1 protecting blocks apart in a race closer than the last table entry (last table entry never awarded)',
+ 'C03b-v2': 'two adjacent keystone publications of one chain exactly finalityDelay apart (>= instead of > in publicationViolatesFinality)',
+ 'C04b-v1': 'the same payload in two sibling fork blocks, one fork removed, then a descendant of the other repeats it (PayloadsIndex::remove drops the whole key)',
+ 'C04b-v2': 'an ATV whose context info has the right height and first previous keystone but a wrong SECOND previous keystone (self-compare in KeystoneContainer::operator==)',
+ 'C07b-v1': 'a child body accepted before its parent body: blocks connected by the descendants loop never enter the tip set (tryAddTip moved out of connectBlock)',
+ 'C07b-v2': 'removePayloads on a block whose parent body has not arrived: its ids stay in the ALT payload index (clearSideEffects only for connected blocks)',
+ 'C09b-v1': 'finalization with unsaved blocks below tip-maxReorg and a competing block exactly at that height (parallel-block clean-up uses the requested block instead of the block that became final)',
+ 'C09b-v2': 'finalization frees a never-activated side block that carried payloads: its entries stay in the payload index (onBeforeLeafRemoved after deleteTemporarily)',
+ 'C13b-v1': 'a connected VTB whose containing VBK block falls behind the old-blocks window, then cleanUp (relation erased, VTB left in the per-type map)',
+ 'C13b-v2': 'two different ATVs with the same fee and endorsed height in one VBK block (pointer tie-break dropped from the relation comparator: the second one is in no relation)',
  'C10-v1': 'a BTC block referenced by two VTBs loses ONE reference after a save (rollback of one ALT block), then an incremental save and reload (setDirty dropped in BtcBlockAddon::removeRef)',
  'C10-v2': 'an ATV contained exactly settlementInterval blocks above the endorsed block, saved, then a non-fast load (loader window off by one in AltBlockTree::loadBlockInner)',
  'C12-v1': 'two equal-work VBK forks on chain and a pooled payload extending the inactive one: generatePopData leaves the VBK best chain on the other fork (restore of the original tip dropped)',
